@@ -13,8 +13,8 @@ open Rpft Function
 noncomputable def PE (na nt : List Str) (s₀ : St) (kk : Nat) (b₁ t₂ w : St) : Params := { ρ := rhoOf (shiftFrom (s₀.next + kk) (b₁.next - (s₀.next + kk))), ν := shiftFrom (s₀.nodes.size + 1) (b₁.nodes.size - (s₀.nodes.size + 1)), γ := shiftFrom (s₀.groups.size + 2) (b₁.groups.size - (s₀.groups.size + 2)), DN := fun i => i ≠ s₀.nodes.size, DG := fun j => j < s₀.groups.size ∨ s₀.groups.size + 2 ≤ j, T := fun j => j = s₀.groups.size, bx := s₀.groups.size, gx := s₀.groups.size + 1, base₁ := t₂, base₂ := w, hb := False, sp := true, na := na, nt := nt }
 
 theorem PE_ok (na nt : List Str) (s₀ : St) (kk : Nat) (b₁ t₂ w : St) : (PE na nt s₀ kk b₁ t₂ w).Ok :=
-  ⟨rhoOf_injective (shiftFrom_injective _ _), shiftFrom_injective _ _, shiftFrom_injective _ _, fun _ => rfl,
-    fun x hx => rhoOf_plain _ hx⟩
+  ⟨rhoOf_injective (shiftFrom_injective _ _), shiftFrom_injective _ _, shiftFrom_injective _ _, fun _ _ => rfl,
+    fun x hx => rhoOf_plain _ hx, fun h => Bool.noConfusion h⟩
 
 /-- what is known of the nested parser's final state about the part before the block -/
 structure B1Facts (na nt : List Str) (s₀ : St) (kk : Nat) (b₁ : St) : Prop where
@@ -163,6 +163,7 @@ theorem asimE_establish {ps : List (Nat × Cond)} {n : NodeM} {kk : Nat} {b₁ w
   · intro j _; rfl
   · intro i _; rfl
   · intro j _; rfl
+  · intro h; exact Bool.noConfusion h
 
 end
 
